@@ -254,7 +254,20 @@ ExpressionEvaluator::evaluate_typed_expression_internal(const ASTNode *node) {
 
     case ASTNodeType::AST_TRY_EXPR:
     case ASTNodeType::AST_CHECKED_EXPR: {
-        int64_t placeholder = evaluate_expression(node);
+        // The try/checked evaluator hands its Result over in a
+        // ReturnException. Here that Result is the value of the expression;
+        // left uncaught it would end the enclosing function like `return`.
+        int64_t placeholder = 0;
+        try {
+            placeholder = evaluate_expression(node);
+        } catch (const ReturnException &ret) {
+            if (ret.is_struct && ret.struct_value.is_enum) {
+                return TypedValue(
+                    ret.struct_value,
+                    InferredType(TYPE_ENUM, ret.struct_value.enum_type_name));
+            }
+            throw;
+        }
         InferredType result_type(TYPE_ENUM, "Result<auto, RuntimeError>");
         return consume_numeric_typed_value(node, placeholder, result_type);
     }
